@@ -17,6 +17,9 @@ import (
 	"github.com/go-i2p/common/meta_leaseset"
 	"github.com/go-i2p/common/router_identity"
 	"github.com/go-i2p/common/router_info"
+	"github.com/go-i2p/crypto/chacha20poly1305"
+	"github.com/go-i2p/crypto/kdf"
+	"go.step.sm/crypto/x25519"
 	"pgregory.net/rapid"
 
 	"verif/internal/ev"
@@ -24,7 +27,7 @@ import (
 	"verif/internal/model"
 )
 
-const rule = "cases: (signing type, crypto type, seed) x every API path that yields a Destination (NewDestination from a constructed and from a parsed KeysAndCert, NewDestinationFromBytes, ReadDestination, ReadLeaseSet, ReadDestinationFromLeaseSet, ReadLeaseSet2, ReadMetaLeaseSet, RouterIdentity.AsDestination, CreateBlindedDestination) or a RouterIdentity (NewRouterIdentity, NewRouterIdentityWithCompressiblePadding, NewRouterIdentityFromKeysAndCert, NewRouterIdentityFromBytes, ReadRouterIdentity, ReadRouterInfo); types {0..20} x {0..10,255} exhaustively each run, boundary codes 65279..65535 and sampled codes by rapid; wire forms are built byte-wise (key material sized by the specification table, excess key bytes in the certificate). Oracle: policy table transcribed from the specification's usage columns - a Destination never declares signing 4,5,6,8 or crypto 5,6,7; a RouterIdentity additionally never signing 11; if a path returns without error the declared types are outside the table; every permitted and supported pair (signing {0,1,2,7} x crypto {0,4}, plus 11 for Destinations) succeeds on every path. Non-trivial: pair prohibited or permitted-and-supported; distinct by (pair, path)."
+const rule = "cases: (signing type, crypto type, seed) x every API path that yields a Destination (NewDestination from a constructed and from a parsed KeysAndCert, NewDestinationFromBytes, ReadDestination, ReadLeaseSet, ReadDestinationFromLeaseSet, ReadLeaseSet2, ReadMetaLeaseSet, RouterIdentity.AsDestination, CreateBlindedDestination, DecryptInnerData on ciphertexts crafted by an independent encryptor) or a RouterIdentity (NewRouterIdentity, NewRouterIdentityWithCompressiblePadding, NewRouterIdentityFromKeysAndCert, NewRouterIdentityFromBytes, ReadRouterIdentity, ReadRouterInfo); types {0..20} x {0..10,255} exhaustively each run, boundary codes 65279..65535 and sampled codes by rapid; wire forms are built byte-wise (key material sized by the specification table, excess key bytes in the certificate). Oracle: policy table transcribed from the specification's usage columns - a Destination never declares signing 4,5,6,8 or crypto 5,6,7; a RouterIdentity additionally never signing 11; if a path returns without error the declared types are outside the table; every permitted and supported pair (signing {0,1,2,7} x crypto {0,4}, plus 11 for Destinations) succeeds on every path. Non-trivial: pair prohibited or permitted-and-supported; distinct by (pair, path)."
 
 func TestMain(m *testing.M) { ev.Main(m, "C09", rule) }
 
@@ -176,6 +179,61 @@ var destPaths = []destPath{
 			return nil, err
 		}
 		d := ri.AsDestination()
+		return &d, nil
+	}},
+	{"DecryptInnerData", func(id []byte, st, _ int, seed uint64) (*destination.Destination, error) {
+		// inner LeaseSet2 with this destination, encrypted by an independent
+		// implementation of the documented scheme (ephemeral X25519, HKDF purpose
+		// key, ChaCha20-Poly1305; layout eph | nonce | ciphertext | tag)
+		b := append(append([]byte{}, id...), model.U32(1700000000)...)
+		b = append(b, 0, 100, 0, 0, 0, 0)
+		b = append(b, 1, 0, 4, 0, 32)
+		b = append(b, model.Fill(32, seed)...)
+		b = append(b, 1)
+		b = append(b, model.Fill(40, seed+1)...)
+		b = append(b, model.Fill(sigLenOr(st, 64), seed+2)...)
+		rpriv := x25519.PrivateKey(model.Fill(32, seed+7))
+		rpub, err := rpriv.PublicKey()
+		if err != nil {
+			return nil, err
+		}
+		epriv := x25519.PrivateKey(model.Fill(32, seed+8))
+		epub, err := epriv.PublicKey()
+		if err != nil {
+			return nil, err
+		}
+		shared, err := epriv.SharedKey(rpub)
+		if err != nil {
+			return nil, err
+		}
+		var root [32]byte
+		copy(root[:], shared)
+		key, err := kdf.NewKeyDerivation(root).DeriveForPurpose(kdf.PurposeEncryptedLeaseSetEncryption)
+		if err != nil {
+			return nil, err
+		}
+		aead, err := chacha20poly1305.NewAEAD(key)
+		if err != nil {
+			return nil, err
+		}
+		nonce := model.Fill(12, seed+9)
+		ct, tag, err := aead.Encrypt(b, nil, nonce)
+		if err != nil {
+			return nil, err
+		}
+		inner := append(append(append(append([]byte{}, epub...), nonce...), ct...), tag[:]...)
+		bk := model.NewSignKey(11, seed)
+		e := model.ELS{SigType: 11, Blinded: bk.Pub, Published: 1700000000, Expires: 600, Inner: inner}
+		e.Sig = bk.Sign(e.SignedPart())
+		els, _, err := encrypted_leaseset.ReadEncryptedLeaseSet(e.Encode())
+		if err != nil {
+			return nil, fmt.Errorf("outer EncryptedLeaseSet: %v", err)
+		}
+		ls, err := els.DecryptInnerData(model.Fill(32, 1), rpriv)
+		if err != nil {
+			return nil, err
+		}
+		d := ls.Destination()
 		return &d, nil
 	}},
 	{"CreateBlindedDestination", func(id []byte, _, _ int, seed uint64) (*destination.Destination, error) {
